@@ -376,7 +376,8 @@ Lemma exp14_text : forall s q' k' x k,
   exists ms es kk,
     split_once "e"%char (sign_text s ++ fixed_digits q' 14 ++ "e"%char :: int_to_text k') = Some (ms, es) /\
     mant14_shape ms = true /\ parse_i32 es = Some kk /\
-    (Qabs (denote_plain ms * Qpower (10 # 1) kk - num_to_Q x) <= (1 # 2) * Qpower (10 # 1) (k - 14)%Z)%Q.
+    (Qabs (denote_plain ms * Qpower (10 # 1) kk - num_to_Q x) <= (1 # 2) * Qpower (10 # 1) (k - 14)%Z)%Q /\
+    wf_exponent es = true.
 Proof.
   intros s q' k' x k Hq Hk Herr.
   destruct (fixed_digits_15 q' Hq) as (d & fp & Efd & Hd & Hf & Hl & Hv). rewrite Efd.
@@ -390,6 +391,7 @@ Proof.
     change (mk_plain false [d] (Some fp)) with (d :: "."%char :: fp). cbv beta iota.
     rewrite Hd, Hf, Hl. reflexivity. }
   split; [now apply parse_i32_int_to_text|].
+  split; [|apply int_to_text_spec].
   apply Rle_Qle. rewrite Q2R_Qabs, Q2R_minus, Q2R_mult, Q2R_num, Q2R_mult, !Q2R_p10, Q2R_half.
   rewrite denote_plain_mk_plain by exact Hi. cbv zeta. unfold dec_value.
   change ([d] ++ fp) with (d :: fp). rewrite Hv, Hl. change (pow10 14) with (10 ^ 14)%Z.
@@ -399,10 +401,11 @@ Proof.
   rewrite EQ. exact Herr.
 Qed.
 
-Theorem fmt_exp14_exec_correct : forall x k, valid x -> Num.is_finite x = true -> in_decade x k ->
+Theorem fmt_exp14_exec_correct_strong : forall x k, valid x -> Num.is_finite x = true -> in_decade x k ->
   exists ms es kk, split_once "e"%char (fmt_exp14_exec x) = Some (ms, es) /\ mant14_shape ms = true /\
     parse_i32 es = Some kk /\
-    (Qabs (denote_plain ms * Qpower (10 # 1) kk - num_to_Q x) <= (1 # 2) * Qpower (10 # 1) (k - 14)%Z)%Q.
+    (Qabs (denote_plain ms * Qpower (10 # 1) kk - num_to_Q x) <= (1 # 2) * Qpower (10 # 1) (k - 14)%Z)%Q /\
+    wf_exponent es = true.
 Proof.
   intros x k V F Hk. apply in_decade_R in Hk.
   destruct x as [s|s| |s m e]; try discriminate F.
@@ -454,6 +457,16 @@ Proof.
       replace (IZR q / p10 14 * p10 k) with (IZR q * p10 (k - 14)); [exact Cl|].
       replace (k - 14)%Z with (k + - (14))%Z by lia. rewrite bpow_plus, bpow_opp. field.
       apply Rgt_not_eq. apply p10_pos.
+Qed.
+
+Theorem fmt_exp14_exec_correct : forall x k, valid x -> Num.is_finite x = true -> in_decade x k ->
+  exists ms es kk, split_once "e"%char (fmt_exp14_exec x) = Some (ms, es) /\ mant14_shape ms = true /\
+    parse_i32 es = Some kk /\
+    (Qabs (denote_plain ms * Qpower (10 # 1) kk - num_to_Q x) <= (1 # 2) * Qpower (10 # 1) (k - 14)%Z)%Q.
+Proof.
+  intros x k V F Hk.
+  destruct (fmt_exp14_exec_correct_strong x k V F Hk) as (ms & es & kk & A & B & C & D & _).
+  now exists ms, es, kk.
 Qed.
 
 (* ====================================================================================
